@@ -27,6 +27,10 @@ CHECKS = {
    text="Seeded exploration of the real file channel behind the real Run() wiring on a real temp directory under the fake clock: 1-3 interleaved senders with line lengths steered around the rotation boundary (max size 1024/4096/1 MiB, single lines larger than the limit, 500 KiB bursts), flushes by timer or by size, several rotations within one simulated second, and an external actor that removes/renames the active file or the directory, or an unwritable destination. After quiescence every file is read back: every line must parse, the multiset of serials must equal the events sent (relaxed narrowly around external faults), no multi-line file may exceed the limit, rotated files never change once seen (checked after every step), every Send must have returned.",
    ref="§3 C07", tech=TECH + "durability/exactly-once oracle over the files read back + step invariant on rotated files + bounded-liveness of Send; external filesystem faults",
    note="Real file I/O on a temp dir (synchronous, deterministic); power loss and torn writes are not simulated."),
+ "C10": dict(
+   text="Seeded exploration of request histories against the four rate-limited UDP services through the real socket listener on the simulated kernel: bursts of 1-200 grammar-derived datagrams from 1-3 source IPs over several source ports with fake-clock gaps from 0 to 25 minutes (so buckets refill partially and fully). Invariant over the recorded history: in every window shorter than the limiter interval a source IP receives at most 4 response datagrams; metamorphic: a source's responses (count and times) are the same with and without the other sources' traffic.",
+   ref="§3 C10", tech=TECH + "sliding-window invariant over the recorded response history on the fake clock + metamorphic source removal",
+   note="x/time/rate reads the bubble's fake clock; responses are what the simulated kernel carried back (WriteToUDP)."),
 }
 NA = {
  "C17": "pure functions of a byte buffer (decoder methods, ipp decode/encode): no schedule, clock, fault or interleaving to simulate (DESIGN §4)",
